@@ -122,6 +122,10 @@ func scalarRecord(ctype string) *Record {
 }
 
 func TestCheck(t *testing.T) {
+	if *flagChild == "percpu" {
+		childPerCPU(*flagChildDir)
+		os.Exit(0)
+	}
 	run := report.New("C06", "exploration")
 	run.Rule = "every (Go type, C struct) map key/value pair x every field (static); every control-plane write API into real kernel maps + in-kernel execution of the real bytecode on frames built from the same addresses, over the positional basis of each key derivation (byte position x 256 values x 2 backgrounds; circuit-id lengths 0..64; VLAN ids {0,1,100,4094,4095}); non-trivial = comparisons that reached a populated entry / a field"
 	run.Assumptions = []string{"cilium/ebpf marshals fixed-size values with encoding/binary semantics in native byte order", "little-endian host as in production", "kernel BPF_PROG_TEST_RUN executes the same bytecode the attach point would"}
@@ -137,6 +141,7 @@ func TestCheck(t *testing.T) {
 	defer os.RemoveAll(dir)
 	staticPart(run, dir)
 	behaviouralPart(run, dir)
+	perCPUPart(run, dir)
 	os.RemoveAll(dir)
 	os.Exit(run.Finish())
 }
